@@ -21,8 +21,9 @@ STUBS = ["as C01 (model file system, NPProxy, tqdm no-op, atexit run at the end 
 ASSUMPTIONS = ["source and destination live on one model file system under different directories"]
 EXPLANATION = ("The source dataset (1-2 scales with different chunk sizes) consists of symbolic voxels; the real convert_chunks "
                "runs; every chunk of every destination scale is read back with a fresh accessor and proved equal to the "
-               "(type-converted) source voxel; the source files are compared byte-for-byte before/after.")
-BOUNDS = {"quick": "sizes up to 4 per axis, 1-2 channels, 1-2 scales; raw<->compressed_segmentation, uint8->uint32/uint64, uint32->uint64, "
+               "(type-converted) source voxel; a compressed_segmentation destination scale is decoded a second time with a decoder built for "
+               "that scale alone from the info on disk (block sizes may differ per scale); the source files are compared byte-for-byte before/after.")
+BOUNDS = {"quick": "sizes up to 4 per axis, 1-2 channels, 1-2 scales; raw<->compressed_segmentation (one block size, or one per scale on either side), uint8->uint32/uint64, uint32->uint64, "
                    "deep/flat/gzip/sharded destinations and sources, remote (model HTTP server) flat and sharded sources, with and without --copy-info, through main(argv) as well",
           "thorough": "3 scales; every source x destination layout pair; 6 sharding parameter triples x 4 index/data encoding pairs on the destination and on the source side (local and remote); every widening pair of unsigned types, raw and into compressed_segmentation"}
 OUTSIDE = ["lossy (JPEG) targets", "narrowing conversions (C11)"]
@@ -54,6 +55,11 @@ def configs(tier, seed):
         # compressed_segmentation on both sides with different block sizes (the chunks must be re-encoded)
         _cfg((2, 2, 1), [(2, 2, 1)], 1, "uint32", "uint32", senc="compressed_segmentation", denc="compressed_segmentation",
              sblock=[2, 2, 1], dblock=[1, 2, 1], cost=8),
+        # a pyramid whose scales have different compressed_segmentation block sizes (source or destination side); the
+        # destination is decoded twice: through PrecomputedIO and with a decoder built for the one scale
+        _cfg((2, 2, 2), [(2, 2, 2), (1, 1, 1)], 1, "uint32", "uint32", denc="compressed_segmentation", dblock=[[2, 2, 2], [1, 1, 1]], cost=6),
+        _cfg((4, 2, 1), [(2, 2, 1), (2, 1, 1)], 1, "uint64", "uint64", senc="compressed_segmentation", denc="compressed_segmentation",
+             sblock=[[1, 2, 1], [2, 1, 1]], dblock=[[2, 1, 1], [1, 1, 1]], cost=10),
         # scales stored with two chunk sizes side by side (the second not a multiple of the first)
         _cfg((4, 4, 2), [(4, 4, 2)], 1, "uint8", "uint16", dlay="flat", alt_cs={"0": [2, 2, 2]}, copy_info=True, cost=3),
         _cfg((3, 2, 2), [(2, 2, 2), (2, 1, 1)], 1, "uint16", "uint16", slay="gzip", alt_cs={"0": [3, 1, 1], "1": [1, 1, 1]}, cost=3),
@@ -110,7 +116,8 @@ def _info(cfg, dtype, enc, layout, block=None):
         sc = dict(key=f"s{i}", size=list(size), chunk_sizes=[list(cs) if not cubic else [max(cs)] * 3] + ([list(alt)] if alt else []), encoding=enc,
                   resolution=[2 ** i] * 3, voxel_offset=[0, 0, 0])
         if enc == "compressed_segmentation":
-            sc["compressed_segmentation_block_size"] = list(block or [2, 2, 2])
+            # block: one block size for every scale, or a list with one block size per scale
+            sc["compressed_segmentation_block_size"] = list((block[i] if block and isinstance(block[0], list) else block) or [2, 2, 2])
         if layout == "sharded":
             m, s_, p_, ienc, denc_ = cfg.get("shspec", (1, 1, 0, "raw", "raw"))
             sc["sharding"] = {"@type": "neuroglancer_uint64_sharded_v1", "minishard_bits": m, "shard_bits": s_, "preshift_bits": p_,
@@ -202,9 +209,10 @@ def H_convert(ctx, cfg):
     ropts = _opts(cfg["dlay"])
     for i in range(len(want_info["scales"])):
       for ci in range(len(want_info["scales"][i]["chunk_sizes"])):
-        got, problems, rinfo = W.read_scale(dst_url, want_info, i, ropts, cs_index=ci)
+       for own in ((False, True) if want_info["scales"][i]["encoding"] == "compressed_segmentation" else (False,)):
+        got, problems, rinfo = W.read_scale(dst_url, want_info, i, ropts, cs_index=ci, own_decoder=own)
         if problems:
-            ctx.fail("destination-chunk-missing-or-unreadable", detail=f"scale {i} chunk size {ci}: " + "; ".join(problems[:2]))
+            ctx.fail("destination-chunk-missing-or-unreadable", detail=f"scale {i} chunk size {ci}{' (decoder of this scale alone)' * own}: " + "; ".join(problems[:2]))
             return
         conds = []
         for idx in real_np.ndindex(*got.shape):
@@ -215,7 +223,7 @@ def H_convert(ctx, cfg):
             if ddt != cfg["sd"]:
                 src = cast_elem(src, ddt)
             conds.append(V.eq_elems(got[idx], src))
-        ctx.prove(z3.And(conds), f"scale-{i}-decodes-to-the-source-voxels")
+        ctx.prove(z3.And(conds), f"scale-{i}-decodes-to-the-source-voxels" + "-with-its-own-decoder" * own)
 
 
 # --------------------------------------------------------------------- replay
@@ -289,11 +297,17 @@ def replay(cfg, cex):
                     for y0 in range(0, Y, cs[1]):
                         for z0 in range(0, Z, cs[2]):
                             cc = (x0, min(x0 + cs[0], X), y0, min(y0 + cs[1], Y), z0, min(z0 + cs[2], Z))
-                            try:
-                                ch = r.read_chunk(sc["key"], cc)
-                            except Exception as e:
-                                return True, f"destination scale {sc['key']} chunk {cc}: {type(e).__name__}: {e}"
                             want = levels[i][:, cc[4]:cc[5], cc[2]:cc[3], cc[0]:cc[1]].astype(want_info["data_type"])
-                            if ch.shape != want.shape or ch.tobytes() != real_np.ascontiguousarray(want).tobytes():
-                                return True, f"destination scale {sc['key']} chunk {cc} differs from the source"
+                            for own in ((False, True) if sc["encoding"] == "compressed_segmentation" else (False,)):
+                                how = " (decoder of this scale alone)" * own
+                                try:
+                                    if own:
+                                        one = load.mod("chunk_encoding").get_encoder(r.info, r.info["scales"][i])
+                                        ch = one.decode(r.accessor.fetch_chunk(sc["key"], cc), (cc[1] - cc[0], cc[3] - cc[2], cc[5] - cc[4]))
+                                    else:
+                                        ch = r.read_chunk(sc["key"], cc)
+                                except Exception as e:
+                                    return True, f"destination scale {sc['key']} chunk {cc}{how}: {type(e).__name__}: {e}"
+                                if ch.shape != want.shape or ch.tobytes() != real_np.ascontiguousarray(want).tobytes():
+                                    return True, f"destination scale {sc['key']} chunk {cc} differs from the source{how}"
     return False, "conversion preserves all voxels on the real code"
